@@ -1132,7 +1132,7 @@ func runR12_4(c *Ctx, r *R) {
 				continue
 			}
 			on := objName(o)
-			if on != "stack.pop" && on != "stack.peek" && on != "stack.peekSecondLast" {
+			if !returnsEntryAndOK(o) {
 				continue
 			}
 			n++
@@ -1182,6 +1182,11 @@ func runR12_4(c *Ctx, r *R) {
 							}
 						}
 					}
+				}
+				// an accessor built on another accessor (pop in terms of peek) hands the whole entry on together with
+				// its ok flag: no field is used here, the obligations are those of its callers
+				if ret, isRet := u.at.(*ssa.Return); isRet && hasOK && len(ret.Results) == 2 && ret.Results[0] == ssa.Value(entry) && isBoolType(ret.Results[1].Type()) {
+					continue
 				}
 				if !hasOK {
 					bad = fmt.Sprintf("entry used at %s without ok==true on the path", c.pos(instrPos(u.at)))
@@ -1233,45 +1238,57 @@ func runR12_5(c *Ctx, r *R) {
 		if f == nil {
 			continue
 		}
-		var got []string
-		for _, call := range callsIn(f, false) {
-			cv, ok := call.(*ssa.Call)
-			if !ok {
-				continue
-			}
-			o := calleeObj(call)
-			if o == nil {
-				continue
-			}
-			on := objName(o)
-			if on != "stack.pop" && on != "stack.peek" && on != "stack.peekSecondLast" {
-				continue
-			}
-			entry := extractOf(cv, 0)
-			if entry == nil {
-				continue
-			}
-			var ks []string
-			reads, _ := structFieldReads(entry)
-			for _, rd := range reads {
-				if rd.Name != "type_" {
+		// the comparisons of the transition, in call order; an unexported helper of the writer that is not itself a
+		// transition of the table contributes its comparisons at the point of the call
+		var collect func(f *ssa.Function, depth int) []string
+		collect = func(f *ssa.Function, depth int) []string {
+			var got []string
+			for _, call := range callsIn(f, false) {
+				cv, ok := call.(*ssa.Call)
+				if !ok {
 					continue
 				}
-				for _, uu := range users(rd.Val) {
-					if b, ok := uu.(*ssa.BinOp); ok && (b.Op == token.EQL || b.Op == token.NEQ) {
-						other := b.Y
-						if other == rd.Val {
-							other = b.X
+				o := calleeObj(call)
+				if o == nil {
+					continue
+				}
+				on := objName(o)
+				if on != "stack.pop" && on != "stack.peek" && on != "stack.peekSecondLast" {
+					if cal := cv.Call.StaticCallee(); cal != nil && cal.Blocks != nil && cal.Pkg == f.Pkg && depth < 2 && strings.HasPrefix(on, "writer.") && !token.IsExported(o.Name()) {
+						if _, isTransition := r12_5table[on]; !isTransition {
+							got = append(got, collect(cal, depth+1)...)
 						}
-						if k, ok := constInt(other); ok {
-							ks = append(ks, constName[k])
+					}
+					continue
+				}
+				entry := extractOf(cv, 0)
+				if entry == nil {
+					continue
+				}
+				var ks []string
+				reads, _ := structFieldReads(entry)
+				for _, rd := range reads {
+					if rd.Name != "type_" {
+						continue
+					}
+					for _, uu := range users(rd.Val) {
+						if b, ok := uu.(*ssa.BinOp); ok && (b.Op == token.EQL || b.Op == token.NEQ) {
+							other := b.Y
+							if other == rd.Val {
+								other = b.X
+							}
+							if k, ok := constInt(other); ok {
+								ks = append(ks, constName[k])
+							}
 						}
 					}
 				}
+				sort.Strings(ks)
+				got = append(got, on+":"+strings.Join(ks, ","))
 			}
-			sort.Strings(ks)
-			got = append(got, on+":"+strings.Join(ks, ","))
+			return got
 		}
+		got := collect(f, 0)
 		want := r12_5table[fname]
 		key := writerPkg + "." + fname + "/entry-types"
 		if strings.Join(got, " ") == strings.Join(want, " ") {
@@ -1284,4 +1301,15 @@ func runR12_5(c *Ctx, r *R) {
 
 func constIntVal(k *types.Const) (int64, bool) {
 	return constInt(&ssa.Const{Value: k.Val()})
+}
+
+// returnsEntryAndOK: a function of the writer package with results (stackEntry, bool) - pop, peek, peekSecondLast and
+// whatever accessor is built on them.
+func returnsEntryAndOK(o types.Object) bool {
+	fn, ok := o.(*types.Func)
+	if !ok {
+		return false
+	}
+	rs := fn.Type().(*types.Signature).Results()
+	return rs.Len() == 2 && typeIs(rs.At(0).Type(), pkgPath(writerPkg), "stackEntry") && isBoolType(rs.At(1).Type())
 }
